@@ -27,6 +27,7 @@ const rule = "Each case is a scenario of op lines run in its own child process o
 	"the channel holds, late and parked consumers, lifecycle routines and bursts with a full channel; " +
 	"API handler functions of every endpoint type additionally with the option core/devMode on (and toggled within a scenario); " +
 	"a stop routine that panics / fails / is healthy / is absent x every kind of work that ignores the cancellation and outlives a short stop timeout (`stoptimeout short`: the timeout branch of stopAllTasks) x the module stopped by Shutdown / by a management pass; " +
+	"workers (service worker, StartWorker, RunWorker) launched before the module's start — from inside its prep routine or right after registration (`prespawn`) — that end, panicking, once the module is online; " +
 	"plus service-worker outcome sequences, management passes, items ending at module stop, the same module through several lives (stopped and restarted with work before, during and after), random mixed scenarios, " +
 	"free-running bursts and a malformed-op stream. Non-trivial = the case contains at least one executed panic; " +
 	"distinct = distinct op-line sequence."
@@ -429,6 +430,56 @@ func (b *builder) restartCase() {
 	}
 	lines = append(lines, "settle", "shutdown")
 	b.add("restart", lines, false)
+}
+
+// earlyLaunchCase: workers of the subject module that are launched before the module is started — right after
+// registration (`reg`) or from inside its prep routine (`prep`) — and whose function ends (panicking) after the
+// module has come online. Module.start() cancels the context the module had until
+// then and installs a new one; the work launched earlier is managed like any other.
+func (b *builder) earlyLaunchCase(at string, firstKind string, firstOuts string, extra int) {
+	rng := b.r.Rng
+	stopTok := []string{"ok", "-", "p:str", "err"}[rng.Intn(4)]
+	lines := []string{"mod A ok ok " + stopTok, "mod B - - -", "status"}
+	var pre []spec
+	pre = append(pre, spec{id: "1", kind: firstKind, outs: firstOuts, flag: at})
+	for i := 0; i < extra; i++ {
+		k := []string{"svc", "svc", "startworker", "runworker"}[rng.Intn(4)]
+		a := at
+		if rng.Intn(3) == 0 {
+			a = []string{"reg", "prep"}[rng.Intn(2)]
+		}
+		pre = append(pre, spec{id: strconv.Itoa(i + 2), kind: k, outs: randOuts(rng, k, 70), flag: a})
+	}
+	left := map[string]int{}
+	for _, s := range pre {
+		lines = append(lines, "prespawn "+s.id+" "+s.kind+" "+s.outs+" "+s.flag)
+		left[s.id] = finishesNeeded(s)
+		b.r.Count("early:" + s.flag + ":" + s.kind)
+	}
+	// (no `finish` before the start: the counters are read through modules.GetStatus(), which answers nil until Start
+	// has locked the module registry — the lines of such a step could not be compared)
+	lines = append(lines, "start", "status")
+	// work started the usual way next to it
+	all := append([]spec{}, pre...)
+	for i := rng.Intn(3); i > 0; i-- {
+		k := workKinds[rng.Intn(len(workKinds))]
+		s := spec{id: strconv.Itoa(len(all) + 1), kind: k, outs: randOuts(rng, k, 50)}
+		lines = append(lines, s.line())
+		left[s.id] = finishesNeeded(s)
+		all = append(all, s)
+	}
+	for again := true; again; {
+		again = false
+		for _, i := range rng.Perm(len(all)) {
+			if id := all[i].id; left[id] > 0 {
+				lines = append(lines, "finish "+id)
+				left[id]--
+				again = again || left[id] > 0
+			}
+		}
+	}
+	lines = append(lines, epilogue()...)
+	b.add("early-launch", lines, false)
 }
 
 // onstopCase: items that end (some panicking) only when the module context is cancelled by Shutdown.
@@ -981,6 +1032,36 @@ func generate(r *hxlib.Run, emit func(hxlib.Case)) {
 		for i := r.Budget(12, 400); i > 0; i-- {
 			tok := []string{"err", "ok", "-", "p:" + allPVs()[rng.Intn(len(allPVs()))]}[rng.Intn(4)]
 			b.stopTimeoutCase(rng.Intn(2) == 0, lingerKinds[rng.Intn(len(lingerKinds))], tok)
+		}
+		r.Rng = shared
+	}
+
+	// 0'. workers launched before the module's start (after registration / from the prep routine) that end, panicking,
+	// once the module is online (own generator, as above)
+	{
+		shared := r.Rng
+		r.Rng = rand.New(rand.NewSource(r.Seed*7919 + 615))
+		rng := r.Rng
+		b.add("corpus", []string{"mod A ok ok ok", "mod B - - -", "status", "prespawn 1 svc p:str,p:err,ok prep", "start", "status",
+			"finish 1", "finish 1", "finish 1", "status", "settle", "shutdown"}, false)
+		for _, at := range []string{"prep", "reg"} {
+			for k, kind := range []string{"svc", "startworker", "runworker"} {
+				pvs := []string{mainPVs[k%len(mainPVs)], mainPVs[(k+2)%len(mainPVs)]}
+				if r.Thorough {
+					pvs = allPVs()
+				}
+				for _, pv := range pvs {
+					outs := "p:" + pv
+					if kind == "svc" {
+						outs += ",p:" + mainPVs[rng.Intn(len(mainPVs))] + "," + []string{"ok", "err,ok", "canceled"}[rng.Intn(3)]
+					}
+					b.earlyLaunchCase(at, kind, outs, 0)
+				}
+			}
+		}
+		for i := r.Budget(14, 600); i > 0; i-- {
+			at := []string{"prep", "reg"}[rng.Intn(2)]
+			b.earlyLaunchCase(at, "svc", randOuts(rng, "svc", 80), rng.Intn(3))
 		}
 		r.Rng = shared
 	}
